@@ -719,6 +719,12 @@ func globalCalls(ins ssa.Instruction) []globalCall {
 
 // mayBeWrittenThrough: can a callee change shared memory through a value of this type?
 func mayBeWrittenThrough(t types.Type) bool {
+	// a value of a sealed interface type of a trusted read-only package (reflect.Type) can be used only through that
+	// package's own methods, whoever holds it: handing it to a callee of the library (conversionError(value, typ)) is
+	// not handing out something the callee could write through
+	if sealedReadOnlyInterface(t) {
+		return false
+	}
 	switch u := t.Underlying().(type) {
 	case *types.Pointer, *types.Map, *types.Slice, *types.Chan:
 		return true
